@@ -38,7 +38,7 @@ SPEC = {
               "runner": {"pkg": "./vflow", "test": "TestVerifPipeline", "race": False},
               "env": {"VERIF_PIPE_MIRROR": "1", "VERIF_PIPE_SIZES": "1500,9000"}}],
     "extra": [sweep],
-    "rule": "real mirrorIPFIX/mirrorSFlow towards random 127/8 targets and ports, captured on a raw IPPROTO_UDP socket and a UDP "
+    "rule": "in the unequal-size pipeline entries the other protocol mirrors 64 short datagrams through its real mirror path before each case; real mirrorIPFIX/mirrorSFlow towards random 127/8 targets and ports, captured on a raw IPPROTO_UDP socket and a UDP "
             "listener; payload lengths 0..max biased to max-29..max for max in {64,1500,9000}, random contents and sources in 4- and "
             "16-octet form; one case in twenty is a stream of 2..12 datagrams (plus floods of 999..2100 of the unserved address "
             "family) through one worker or the real dispatcher with 0..5 workers in a private network namespace whose loopback MTU "
